@@ -194,13 +194,32 @@ def unit_convert(edges, und, opts):
     return res
 
 
+def greedy_groups(items, related):
+    """greedy partition of items into groups whose members are pairwise `related`"""
+    groups = []
+    for x in items:
+        for g in groups:
+            if all(related(x, y) for y in g):
+                g.append(x)
+                break
+        else:
+            groups.append([x])
+    return groups
+
+
 def unit_colors(edges, k, opts):
     """--convert g --colors k: output has a clique covering every input vertex  <=>  input is k-colourable"""
     import tempfile, os
     d = tempfile.mkdtemp(dir=tmpdir())
     f = os.path.join(d, 'g.csv')
     open(f, 'w').write(''.join('%s,%s\n' % e for e in edges))
-    rc, out, err = run_rgg(['--convert', f, '--colors', str(k), '-u'])
+    gen = opts.get('generate')
+    if gen:
+        # a generated graph whose edge set is known although the order is random: the complete graph on v0..v(V-1)
+        cmd = [str(gen[0]), '--complete', '--colors', str(k)] + (['-u'] if gen[1] else [])
+    else:
+        cmd = ['--convert', f, '--colors', str(k), '-u']
+    rc, out, err = run_rgg(cmd)
     res = dict(queries=[], method=None)
     if rc != 0:
         res['cex'] = dict(obligation='colors', case=dict(kind='rggrun', args=['--colors', str(k), str(edges)], what='failed rc=%s %s' % (rc, err[-100:])))
@@ -213,10 +232,15 @@ def unit_colors(edges, k, opts):
     #     every input vertex has a chosen copy  (copy <-> original by the name prefix before _c<colour>)
     pick = {v: z3.Bool('pick_' + v) for v in overts}
     adj = set(oe) | {(b, a) for a, b in oe}
-    s1 = z3.Solver()
+    s1 = z3.SolverFor('QF_FD')
     for a, b in itertools.combinations(overts, 2):
         if (a, b) not in adj:
             s1.add(z3.Or(z3.Not(pick[a]), z3.Not(pick[b])))
+    # implied cardinality constraints (they follow from the clauses above, and keep pigeonhole-like instances easy):
+    # a greedy partition of the output vertices into independent sets, at most one pick per set
+    for grp in greedy_groups(overts, lambda a, b: (a, b) not in adj):
+        if len(grp) > 2:
+            s1.add(z3.PbLe([(pick[v], 1) for v in grp], 1))
     orig = lambda ov: ov.rsplit('_c', 1)[0]
     for v in verts:
         copies = [pick[o] for o in overts if orig(o) == v]
@@ -224,8 +248,13 @@ def unit_colors(edges, k, opts):
     t0 = time.time()
     r1 = s1.check()
     # (2) proper k-colouring of the input graph (self loops make it uncolourable)
-    s2 = z3.Solver()
+    s2 = z3.SolverFor('QF_FD')
     col = {v: [z3.Bool('col_%s_%d' % (v, c)) for c in range(k)] for v in verts}
+    eset = {(a, b) for a, b in edges if a != b} | {(b, a) for a, b in edges if a != b}
+    for grp in greedy_groups(verts, lambda a, b: (a, b) in eset):
+        if len(grp) > 2:
+            for c in range(k):
+                s2.add(z3.PbLe([(col[v][c], 1) for v in grp], 1))      # implied: a clique uses a colour at most once
     for v in verts:
         s2.add(z3.PbEq([(x, 1) for x in col[v]], 1) if k else z3.BoolVal(False))
     for a, b in edges:
@@ -238,7 +267,7 @@ def unit_colors(edges, k, opts):
     res['queries'].append(dict(name='covering clique in the output exists (%s) <=> input is %d-colourable (%s)' % (r1, k, r2), result='unsat' if agree else 'sat', expect='unsat',
                                time=time.time() - t0, backend='z3 (two independent encodings)', size=None))
     if not agree:
-        res['cex'] = dict(obligation='colors', case=dict(kind='rggrun', args=['--convert', ';'.join('%s,%s' % e for e in edges), '--colors', str(k)],
+        res['cex'] = dict(obligation='colors', case=dict(kind='rggrun', args=(cmd if gen else ['--convert', ';'.join('%s,%s' % e for e in edges), '--colors', str(k)]),
                                                          what='covering clique: %s, %d-colourable: %s' % (r1, k, r2)))
     res['sample'] = dict(config=dict(edges=edges, colors=k), covering_clique=str(r1), colourable=str(r2))
     return res
@@ -279,6 +308,12 @@ def main():
     for g in und_graphs:
         for k in (1, 2, 3):
             jobs.append(('colors k=%d %s' % (k, ';'.join('%s,%s' % e for e in g)), unit_colors, (g, k, {})))
+    # --colors on *generated* graphs (not --convert): the complete graph is the one request whose edge set is known
+    for V, ks in ((2, (1, 2)), (3, (2, 3)), (4, (3, 4)), (11, (1, 10, 11))) + (() if quick else ((5, (4, 5)), (10, (9, 10)), (12, (2, 12)))):
+        comp = [('v%d' % i, 'v%d' % j) for i in range(V) for j in range(i + 1, V)]
+        for und in (True, False):
+            for k in ks:
+                jobs.append(('colors k=%d on generated %d --complete%s' % (k, V, ' -u' if und else ''), unit_colors, (comp, k, dict(generate=(V, und)))))
     results = run_units(jobs)
     st = {}
     for name in list(results):
@@ -316,7 +351,7 @@ def main():
                                    'random_graph_gen %s: %s' % (' '.join(case['args']), case['what']), path))
             print('CONFIRMED random_graph_gen %s: %s' % (' '.join(case['args']), case['what']))
     rep.bounds = {'generate_graph': 'V = 0..3 (4 thorough) concrete; E any usize; -u unknown; every permutation of the candidate edges',
-                  'requests_through_binary': 'V = 0..4, E around the feasibility boundary, --complete', 'convert': 'edge lists over <= 3 names (and fixed larger ones)', 'colors': '%d graphs x k = 1..3' % len(und_graphs)}
+                  'requests_through_binary': 'V = 0..4, E around the feasibility boundary, --complete', 'convert': 'edge lists over <= 3 names (and fixed larger ones)', 'colors': '%d converted graphs x k = 1..3; generated complete graphs on 2, 3, 4 and 11 vertices (thorough: also 5, 10, 12) with k around V, directed and -u' % len(und_graphs)}
     rep.assumptions = ['library models (Vec/slice/iterators/format! with concrete arguments/Option/Result)', 'rand: thread_rng opaque, shuffle = arbitrary permutation',
                        '--convert and --colors are validated on concrete runs of the binary (their csv / hash-map plumbing is not executed symbolically); for --colors the solver decides both sides of the equivalence']
     rep.uncovered = ['V > 3 for the symbolic unit', '--dot output format and file output', 'csv parsing details (quoting, ragged records)']
